@@ -149,8 +149,29 @@ def _set_ambient(profile):
         root.setLevel(logging.WARNING)
 
 
+_TERMINAL_ENV = {"COLUMNS": "24", "LINES": "6", "NO_COLOR": "1", "TERM": "dumb"}
+
+
 def _run_shard(mod, fname, shard, P, ambient="default"):
     _set_ambient(ambient)
+    saved_env = None
+    if ambient == "fresh-thread":
+        # ... and, while at it, with the environment of a narrow, colourless terminal (presentation may follow it;
+        # nothing any property speaks about may)
+        saved_env = {k: os.environ.get(k) for k in _TERMINAL_ENV}
+        os.environ.update(_TERMINAL_ENV)
+    try:
+        _run_shard_ambient(mod, fname, shard, P, ambient)
+    finally:
+        if saved_env is not None:
+            for k, v in saved_env.items():
+                if v is None:
+                    os.environ.pop(k, None)
+                else:
+                    os.environ[k] = v
+
+
+def _run_shard_ambient(mod, fname, shard, P, ambient):
     if ambient != "default":
         P.stratum("shards-run-with:" + ambient)
         P.ambient = ambient
